@@ -37,11 +37,15 @@ struct Case {
     chdir: Option<String>,
 }
 
-const CONFIGS: [&str; 4] = [
+const CONFIGS: [&str; 6] = [
     "{ generator: 'dense', rules: [] }",
     "{ generator: 'readable', rules: ['remove_assertions', 'remove_comments', 'remove_spaces'] }",
     "{ generator: 'dense', rules: [{ rule: 'convert_require', current: 'path', target: { name: 'luau' } }] }",
     "{ generator: 'dense', bundle: { require_mode: 'path' }, rules: [] }",
+    // the two configurations of the `.luaurc` face: requires through an alias are resolved with the
+    // closest `.luaurc` above the requiring file
+    "{ generator: 'dense', rules: [{ rule: 'convert_require', current: 'path', target: { name: 'roblox', indexing_style: 'find_first_child' } }] }",
+    "{ generator: 'dense', bundle: { require_mode: 'path' }, rules: ['remove_comments'] }",
 ];
 
 fn config_reads_other_files(c: usize) -> bool {
@@ -50,7 +54,7 @@ fn config_reads_other_files(c: usize) -> bool {
 
 /// only the bundler fails on a require that cannot be resolved (convert_require leaves it alone)
 fn config_fails_on_missing_require(c: usize) -> bool {
-    c == 3
+    c == 3 || c == 5
 }
 
 fn configuration(c: usize) -> Configuration {
@@ -151,6 +155,28 @@ fn join_rel(a: &str, rel: &str) -> String {
         rel.to_owned()
     } else {
         format!("{}/{}", a.trim_end_matches('/'), rel)
+    }
+}
+
+fn normalizes_to_dot(p: &str) -> bool {
+    !p.starts_with('/') && lex_norm(p).is_empty() && !p.is_empty()
+}
+
+/// the source path darklua derives for the tree key `p` (= `<dir>/<r>`) when the process runs in
+/// `dir` with the relative input `input`: the walk yields `normalize(input)/…`, normalised
+fn relative_source_key(input: &str, _dir: &str, _p: &str, r: &str) -> String {
+    let n = lex_norm(input);
+    if n.starts_with("..") {
+        // the input leaves the working directory: sources keep the `..` prefix
+        let ups = n.split('/').take_while(|c| *c == "..").count();
+        let dir_parts: Vec<&str> = _dir.split('/').collect();
+        let p_parts: Vec<&str> = _p.split('/').collect();
+        let keep = dir_parts.len().saturating_sub(ups);
+        let mut out: Vec<String> = std::iter::repeat("..".to_owned()).take(ups).collect();
+        out.extend(p_parts[keep.min(p_parts.len())..].iter().map(|x| (*x).to_owned()));
+        out.join("/")
+    } else {
+        r.to_owned()
     }
 }
 
@@ -309,6 +335,50 @@ fn run_process(resources: &Resources, options: Options) -> (Option<String>, Vec<
 /// run the case on the real code; `order` = insertion / creation order of the tree entries.
 /// File-system errors mention the temporary root: it is replaced by `<B>`.
 fn run_real(case: &Case, order: &[usize]) -> RunResult {
+    if case.chdir.is_some() && !IN_CHILD.load(std::sync::atomic::Ordering::SeqCst) {
+        // the working directory is process-wide: such a case only ever runs in a child process
+        return run_chdir_case_in_child(case, order);
+    }
+    run_real_here(case, order)
+}
+
+static IN_CHILD: std::sync::atomic::AtomicBool = std::sync::atomic::AtomicBool::new(false);
+
+/// paths printed relative to the case's working directory are shown like the others: `<B>/…`
+fn absolutize_error(case: &Case, message: String) -> String {
+    let dir = match &case.chdir {
+        Some(d) => d,
+        None => return message,
+    };
+    let mut parts: Vec<String> = message.split('`').map(str::to_owned).collect();
+    if parts.len() >= 3 && !parts[1].starts_with("<B>") && !parts[1].starts_with('/') {
+        parts[1] = format!("<B>/{}", lex_norm(&format!("{}/{}", dir, parts[1])));
+    }
+    parts.join("`")
+}
+
+fn run_chdir_case_in_child(case: &Case, order: &[usize]) -> RunResult {
+    let failed = RunResult { panicked: true, ..Default::default() };
+    let answers = match run_in_child_with(std::slice::from_ref(case), Some(order)) {
+        Some(a) if a.len() == 1 => a,
+        _ => return failed,
+    };
+    let a = &answers[0];
+    let mut after = Snapshot::new();
+    if let Some(map) = a["after"].as_object() {
+        for (k, v) in map {
+            after.insert(k.clone(), v.as_str().and_then(unhex));
+        }
+    }
+    RunResult {
+        process_error: a["process_error"].as_str().map(|s| absolutize_error(case, s.to_owned())),
+        errors: a["errors"].as_array().map(|e| e.iter().filter_map(|x| x.as_str()).map(|s| absolutize_error(case, s.to_owned())).collect()).unwrap_or_default(),
+        after,
+        panicked: a["panicked"].as_bool().unwrap_or(true),
+    }
+}
+
+fn run_real_here(case: &Case, order: &[usize]) -> RunResult {
     if case.fs {
         let tmp = TempTree { base: fresh_base() };
         let base = tmp.base.to_string_lossy().into_owned();
@@ -554,7 +624,16 @@ fn ask_batch_model(
 ) -> ModelAnswer {
     let mut t = String::from("(T");
     for (p, content, result) in table {
-        let key = if case.fs { abs(base, p) } else { p.clone() };
+        // the model keys `T` by the item's (normalised) source path: relative to the working
+        // directory when the case runs with relative paths
+        let key = match &case.chdir {
+            Some(d) => match p.strip_prefix(&format!("{}/", d)) {
+                Some(r) if normalizes_to_dot(&case.input) || !case.input.starts_with('/') => relative_source_key(&case.input, d, p, r),
+                _ => abs(base, p),
+            },
+            None if case.fs => abs(base, p),
+            None => p.clone(),
+        };
         match result {
             Ok(bytes) => t.push_str(&format!(" ({} {} ok {})", path_hex(&key), hex(content), hex(bytes))),
             Err(code) => t.push_str(&format!(" ({} {} err {})", path_hex(&key), hex(content), code)),
@@ -629,6 +708,10 @@ fn ask_batch_model(
                         if a.len() == 4 {
                             let path = unhex_str(&a[2]).unwrap_or_default();
                             let path = if case.fs { path.replace(base, "<B>") } else { path };
+                            let path = match &case.chdir {
+                                Some(d) if !path.starts_with("<B>") && !path.starts_with('/') => format!("<B>/{}", lex_norm(&format!("{}/{}", d, path))),
+                                _ => path,
+                            };
                             let kind = match (a[1].as_str(), a[3].as_str()) {
                                 ("read", _) => "notfound",
                                 ("write", _) => "io",
@@ -723,7 +806,7 @@ fn generate(rng: &mut Rng, fs: bool, allow_finding_classes: bool) -> Generated {
     let root = if rng.chance(1, 4) { "proj/src" } else { "src" };
     let mut tree: Vec<(String, Ent)> = Vec::new();
     let mut faults = BTreeMap::new();
-    let config = if rng.chance(1, 2) { rng.below(2) } else { rng.below(4) };
+    let config = if rng.chance(1, 2) { rng.below(2) } else { rng.below(6) };
     // directories
     let mut dirs = vec![root.to_owned()];
     for _ in 0..rng.below(4) {
@@ -771,6 +854,29 @@ fn generate(rng: &mut Rng, fs: bool, allow_finding_classes: bool) -> Generated {
         tree.push((key.clone(), Ent::File(content)));
         faults.insert(key.clone(), fault);
     }
+    // the `.luaurc` face: nested `.luaurc` files that give the alias `@dep` a different meaning per
+    // directory, and users of the alias at every depth (so that both processing orders
+    // ancestor-first / descendant-first occur)
+    if config >= 4 {
+        for (i, d) in dirs.iter().enumerate() {
+            if i == 0 || rng.chance(2, 3) {
+                let dep = format!("{}/dep_{}.lua", d, i);
+                tree.push((dep.clone(), Ent::File(format!("return 'dep {}'\n", i).into_bytes())));
+                faults.insert(dep.clone(), Fault::Healthy);
+                lua_keys.push(dep);
+                let rc = format!("{}/.luaurc", d);
+                tree.push((rc.clone(), Ent::File(format!("{{ \"aliases\": {{ \"dep\": \"dep_{}.lua\" }} }}", i).into_bytes())));
+                // only ever a work item when given as the single input file: then it does not parse
+                faults.insert(rc, Fault::Syntax);
+            }
+        }
+        for d in dirs.iter() {
+            let user = format!("{}/uses-dep.lua", d);
+            tree.push((user.clone(), Ent::File(b"local dep = require('@dep')\nreturn dep\n".to_vec())));
+            faults.insert(user.clone(), Fault::Healthy);
+            lua_keys.push(user);
+        }
+    }
     // non-lua files and empty directories
     for _ in 0..rng.below(3) {
         let key = format!("{}/{}", rng.pick(&dirs), rng.pick(&OTHER_NAMES));
@@ -815,10 +921,12 @@ fn generate(rng: &mut Rng, fs: bool, allow_finding_classes: bool) -> Generated {
         2 => { shape.push_str(" out=new"); Some("out".to_owned()) }
         3 => { shape.push_str(" out=./new/deep"); Some("./out/deep".to_owned()) }
         4 => {
-            shape.push_str(" out=existing-dir");
-            tree.push(("dist/keep.txt".to_owned(), Ent::File(b"keep".to_vec())));
-            tree.push(("dist/sub/old.lua".to_owned(), Ent::File(b"return 'old'".to_vec())));
-            Some("dist".to_owned())
+            // an existing directory, also one whose name looks like it has an extension
+            let name = *rng.pick(&["dist", "dist.v2", "build.d", "dist"]);
+            shape.push_str(if name.contains('.') { " out=existing-dir.dotted" } else { " out=existing-dir" });
+            tree.push((format!("{}/keep.txt", name), Ent::File(b"keep".to_vec())));
+            tree.push((format!("{}/sub/old.lua", name), Ent::File(b"return 'old'".to_vec())));
+            Some(name.to_owned())
         }
         5 => {
             shape.push_str(" out=existing-file");
@@ -861,7 +969,10 @@ fn generate(rng: &mut Rng, fs: bool, allow_finding_classes: bool) -> Generated {
         8 => { shape.push_str(" out=new"); Some("out2".to_owned()) }
         9 => { shape.push_str(" out=inside-input"); Some(format!("{}/sub", input_norm)) }
         10 => { shape.push_str(" out=parent-of-input"); Some(input_norm.rsplit_once('/').map(|x| x.0.to_owned()).unwrap_or_default()) }
-        _ => { shape.push_str(" in=dot"); Some("out".to_owned()) }
+        _ => {
+            shape.push_str(" in=dot");
+            if rng.chance(1, 2) { Some("out".to_owned()) } else { None }
+        }
     };
     let input = if shape.ends_with("in=dot") { ".".to_owned() } else { input };
     let fail_fast = rng.chance(1, 4);
@@ -881,6 +992,36 @@ fn generate(rng: &mut Rng, fs: bool, allow_finding_classes: bool) -> Generated {
     blocked.retain(|k| clean.iter().any(|(p, _)| p == k));
     let case = Case { fs, tree: clean, input, output, fail_fast, config, chdir: None };
     Generated { case, faults, blocked, shape }
+}
+
+/// a file-system case run from inside the tree with relative paths (`darklua process . ../out`):
+/// the generated case is re-expressed relative to its input root, which becomes the working
+/// directory. Only ever executed in a child process.
+fn generate_chdir(rng: &mut Rng) -> Generated {
+    let mut g = generate(rng, true, false);
+    let root = if g.case.tree.iter().any(|(p, _)| p.starts_with("proj/src")) { "proj/src" } else { "src" };
+    let ups = "../".repeat(root.split('/').count());
+    let rel = |p: &str| -> String {
+        let n = p.trim_start_matches("./");
+        if n == root || n == format!("{}/", root) {
+            (*["."].first().unwrap()).to_owned()
+        } else if let Some(r) = n.strip_prefix(&format!("{}/", root)) {
+            r.to_owned()
+        } else {
+            format!("{}{}", ups, n)
+        }
+    };
+    g.case.input = rel(&g.case.input);
+    if g.case.input == "." && rng.chance(1, 3) {
+        g.case.input = (*rng.pick(&["./", "./.", "sub/..", ""])).to_owned();
+        if g.case.input.is_empty() || (g.case.input == "sub/.." && !g.case.tree.iter().any(|(p, _)| p.starts_with(&format!("{}/sub/", root)))) {
+            g.case.input = ".".to_owned();
+        }
+    }
+    g.case.output = g.case.output.as_ref().map(|o| rel(o));
+    g.case.chdir = Some(root.to_owned());
+    g.shape = format!("chdir {}", g.shape);
+    g
 }
 
 // ---------------------------------------------------------------------------------------------
@@ -916,9 +1057,15 @@ struct Expectation {
 
 fn expectation(case: &Case) -> Expectation {
     let initial = initial_snapshot(case);
-    let input = lex_norm(&case.input);
+    let at = |p: &str| -> String {
+        match &case.chdir {
+            Some(d) if !p.starts_with('/') => lex_norm(&format!("{}/{}", d, p)),
+            _ => lex_norm(p),
+        }
+    };
+    let input = at(&case.input);
     let is_file = matches!(initial.get(&input), Some(Some(_)));
-    let out = case.output.as_ref().map(|o| lex_norm(o));
+    let out = case.output.as_ref().map(|o| at(o));
     if is_file {
         let name = input.rsplit('/').next().unwrap().to_owned();
         let dest = match &out {
@@ -1128,7 +1275,9 @@ fn run_case(model: &mut Model, g: &Generated, rng: &mut Rng, listed: &BTreeSet<S
 
     // ---- region and T
     let base = "/dlv-c11-root"; // the model sees file-system trees under a fixed absolute root
-    let region = ask_region(model, case, base, "/");
+    let cwd = case.chdir.as_ref().map(|d| format!("{}/{}", base, d)).unwrap_or_else(|| "/".to_owned());
+    let cwd = cwd.as_str();
+    let region = ask_region(model, case, base, cwd);
     let mut tm = TMeasure::new(case);
     let mut table = Vec::new();
     for (p, e) in &case.tree {
@@ -1139,7 +1288,7 @@ fn run_case(model: &mut Model, g: &Generated, rng: &mut Rng, listed: &BTreeSet<S
     drop(tm);
 
     // ---- correspondence
-    let first = ask_batch_model(model, case, base, "/", &table, None);
+    let first = ask_batch_model(model, case, base, cwd, &table, None);
     let mut perm: Option<Vec<usize>> = None;
     if first.collect_error.is_none() {
         let wl = &first.work;
@@ -1149,7 +1298,11 @@ fn run_case(model: &mut Model, g: &Generated, rng: &mut Rng, listed: &BTreeSet<S
             let initial = initial_snapshot(case);
             let real_err_paths: Vec<String> = real.errors.iter().map(|e| classify_error(e).1).collect();
             let strip = |s: &str| -> String {
-                if case.fs { lex_norm(s.strip_prefix(base).unwrap_or(s).trim_start_matches('/')) } else { lex_norm(s) }
+                match (&case.chdir, s.starts_with('/')) {
+                    (Some(d), false) => lex_norm(&format!("{}/{}", d, s)),
+                    _ if case.fs => lex_norm(s.strip_prefix(base).unwrap_or(s).trim_start_matches('/')),
+                    _ => lex_norm(s),
+                }
             };
             let mut written = Vec::new();
             let mut failing = Vec::new();
@@ -1183,7 +1336,7 @@ fn run_case(model: &mut Model, g: &Generated, rng: &mut Rng, listed: &BTreeSet<S
             perm = Some(p);
         }
     }
-    let answer = if perm.is_some() { ask_batch_model(model, case, base, "/", &table, perm.as_deref()) } else { first };
+    let answer = if perm.is_some() { ask_batch_model(model, case, base, cwd, &table, perm.as_deref()) } else { first };
 
     let mut mismatch: Option<String> = None;
     match (&answer.collect_error, &real.process_error) {
@@ -1245,7 +1398,7 @@ fn run_case(model: &mut Model, g: &Generated, rng: &mut Rng, listed: &BTreeSet<S
     // the statement's per-file model (DESIGN: "for non-bundling configurations")
     let reads_others_in_place = config_reads_other_files(case.config) && expectation(case).in_place;
 
-    let class = if region.dot { Some("C11-F1") } else if region.overlap { Some("C11-F2") } else { None };
+    let class = if region.overlap { Some("C11-F2") } else if region.dot { Some("dot") } else { None };
     out.hists.push(("shape".into(), format!("{} {}", if case.fs { "fs" } else { "mem" }, g.shape)));
     out.hists.push(("region".into(), format!("h={} indep={} class={}", region.h, region.indep, class.unwrap_or("-"))));
     out.hists.push(("faults".into(), format!("{}", real.errors.len().min(6))));
@@ -1288,29 +1441,42 @@ fn truncate(s: &str, n: usize) -> String {
 // ---------------------------------------------------------------------------------------------
 // child process: determinism across processes (another HashMap RandomState), chdir witnesses
 
-fn child_digests(cases: &[Case]) -> Vec<Value> {
+fn child_digests(cases: &[Case], order: Option<&[usize]>) -> Vec<Value> {
     cases
         .iter()
         .map(|case| {
-            let order: Vec<usize> = (0..case.tree.len()).collect();
+            let default_order: Vec<usize> = (0..case.tree.len()).collect();
+            let order = match order {
+                Some(o) if o.len() == case.tree.len() => o.to_vec(),
+                _ => default_order,
+            };
             let r = run_real(case, &order);
-            json!({
+            let mut v = json!({
                 "digest": format!("{:016x}", snapshot_digest(&r.after, &r.errors)),
                 "process_error": r.process_error,
                 "errors": r.errors,
                 "changed": r.after != initial_snapshot(case),
                 "panicked": r.panicked,
-            })
+            });
+            if case.chdir.is_some() {
+                let after: serde_json::Map<String, Value> = r.after.iter().map(|(k, c)| (k.clone(), match c { Some(b) => Value::String(hex(b)), None => Value::Null })).collect();
+                v["after"] = Value::Object(after);
+            }
+            v
         })
         .collect()
 }
 
 fn run_in_child(cases: &[Case]) -> Option<Vec<Value>> {
+    run_in_child_with(cases, None)
+}
+
+fn run_in_child_with(cases: &[Case], order: Option<&[usize]>) -> Option<Vec<Value>> {
     let exe = std::env::current_exe().ok()?;
     let n = UNIQUE.fetch_add(1, std::sync::atomic::Ordering::SeqCst);
     let req = std::env::temp_dir().join(format!("dlv-c11-child-{}-{}.json", std::process::id(), n));
     let out = std::env::temp_dir().join(format!("dlv-c11-child-{}-{}.out.json", std::process::id(), n));
-    std::fs::write(&req, serde_json::to_string(&json!({"c11_child": true, "cases": cases.iter().map(case_json).collect::<Vec<_>>()})).ok()?).ok()?;
+    std::fs::write(&req, serde_json::to_string(&json!({"c11_child": true, "order": order, "cases": cases.iter().map(case_json).collect::<Vec<_>>()})).ok()?).ok()?;
     let status = std::process::Command::new(exe)
         .args(["C11", "--replay", req.to_str()?, "--out", out.to_str()?])
         .status()
@@ -1332,6 +1498,10 @@ fn replay_known_findings(report: &mut Report, model: &mut Model) -> BTreeSet<Str
     let mut listed = BTreeSet::new();
     for f in known_findings("C11") {
         let id = f["id"].as_str().unwrap_or("?").to_owned();
+        if f["status"] != "known" {
+            // a fixed finding excuses nothing: its witness lives in corpus/C11 and must pass
+            continue;
+        }
         listed.insert(id.clone());
         let case = match case_from_json(&f["witness"]) {
             Some(c) => c,
@@ -1376,7 +1546,7 @@ fn replay_known_findings(report: &mut Report, model: &mut Model) -> BTreeSet<Str
             // the model reproduces the defect too (it mirrors the code, bugs included)
             let cwd = case.chdir.as_ref().map(|d| format!("/dlv-c11-root/{}", d)).unwrap_or_else(|| "/".to_owned());
             let m = ask_batch_model(model, &case, "/dlv-c11-root", &cwd, &[], None);
-            if case.chdir.is_some() && m.collect_error.as_deref() != Some("strip-prefix") {
+            if case.chdir.is_some() && f["expected_wrong"].as_str().unwrap_or("").contains("unable to remove path prefix") && m.collect_error.as_deref() != Some("strip-prefix") {
                 report.violation(Violation {
                     kind: "correspondence".into(), check: "known-finding-model".into(),
                     what: format!("the model does not reproduce {}: {}", id, truncate(&m.raw, 200)), input: case_json(&case), failing_input_found: false });
@@ -1500,14 +1670,16 @@ pub fn run(report: &mut Report, replay: Option<&str>) {
         if v["c11_child"] == true {
             let cases: Vec<Case> = v["cases"].as_array().map(|a| a.iter().filter_map(case_from_json).collect()).unwrap_or_default();
             report.max_samples = usize::MAX;
-            for d in child_digests(&cases) {
+            IN_CHILD.store(true, std::sync::atomic::Ordering::SeqCst);
+            let order: Option<Vec<usize>> = v["order"].as_array().map(|a| a.iter().filter_map(|x| x.as_u64().map(|n| n as usize)).collect());
+            for d in child_digests(&cases, order.as_deref()) {
                 report.sample(d);
             }
             return;
         }
         if let Some(case) = case_from_json(&v["input"]).or_else(|| case_from_json(&v)) {
             let mut model = Model::spawn();
-            let listed: BTreeSet<String> = known_findings("C11").iter().filter_map(|f| f["id"].as_str().map(str::to_owned)).collect();
+            let listed: BTreeSet<String> = known_findings("C11").iter().filter(|f| f["status"] == "known").filter_map(|f| f["id"].as_str().map(str::to_owned)).collect();
             let g = Generated { case, faults: BTreeMap::new(), blocked: BTreeSet::new(), shape: "replay".into() };
             let mut rng = Rng::new(report.seed);
             let o = run_case(&mut model, &g, &mut rng, &listed);
@@ -1521,7 +1693,7 @@ pub fn run(report: &mut Report, replay: Option<&str>) {
         return;
     }
 
-    report.rule = "random directory trees (nesting, non-Lua files, names with spaces/dots/unicode, a directory named x.lua) × input as file/dir/./dir/dir/ /dir/sub/.. /missing × output absent/new/existing dir/existing file/with extension/same as input/blocked destinations (+ the finding classes: output inside input, input inside output, input `.`) × fault subsets (syntax, invalid UTF-8, missing require under convert_require/bundle, directory or file in the way) × fail-fast × 4 configurations, on memory resources and on a real temporary directory; non-trivial = process succeeded as a whole and the work list has ≥ 2 items".to_owned();
+    report.rule = "random directory trees (nesting, non-Lua files, names with spaces/dots/unicode, a directory named x.lua) × input as file/dir/./dir/dir/ /dir/sub/.. /missing × output absent/new/existing dir/existing file/with extension/same as input/blocked destinations (+ the finding classes: output inside input, input inside output, input `.`) × fault subsets (syntax, invalid UTF-8, missing require under convert_require/bundle, directory or file in the way) × fail-fast × 6 configurations (two of them resolve `@dep` through nested `.luaurc` files: convert_require to roblox and bundling), on memory resources and on a real temporary directory; non-trivial = process succeeded as a whole and the work list has ≥ 2 items".to_owned();
 
     let mut model = Model::spawn();
     let listed = replay_known_findings(report, &mut model);
@@ -1601,16 +1773,40 @@ pub fn run(report: &mut Report, replay: Option<&str>) {
         }
     }
 
+    // ---- runs from inside the tree with relative paths (each real run in a child process)
+    {
+        let mut model = Model::spawn();
+        let n = if thorough { 240 } else { 48 };
+        for _ in 0..n {
+            let g = generate_chdir(&mut rng);
+            let o = run_case(&mut model, &g, &mut rng, &listed);
+            report.case(o.nontrivial_key);
+            report.count("chdir_cases", 1);
+            for (n, b) in o.hists {
+                report.hist(&n, &b);
+            }
+            for (n, c) in o.counters {
+                report.count(&n, c);
+            }
+            for (id, _) in o.finding_hits {
+                report.count(&format!("oracle_failures_attributed_to_{}", id), 1);
+            }
+            for v in o.violations {
+                report.violation(v);
+            }
+        }
+    }
+
     // ---- two processes: another RandomState for every HashMap
     let mut model = Model::spawn();
-    let mine = child_digests(&cross_cases);
+    let mine = child_digests(&cross_cases, None);
     match run_in_child(&cross_cases) {
         Some(theirs) if theirs.len() == mine.len() => {
             for ((case, a), b) in cross_cases.iter().zip(&mine).zip(&theirs) {
                 report.count("cross_process_cases", 1);
                 if a["digest"] != b["digest"] {
                     let region = ask_region(&mut model, case, "/dlv-c11-root", "/");
-                    let class = if region.dot { "C11-F1" } else if region.overlap { "C11-F2" } else { "-" };
+                    let class = if region.overlap { "C11-F2" } else if region.dot { "dot" } else { "-" };
                     let in_place_reader = config_reads_other_files(case.config) && expectation(case).in_place;
                     if listed.contains(class) {
                         report.count(&format!("cross_process_differences_attributed_to_{}", class), 1);
